@@ -301,6 +301,11 @@ def namedF (name : String) : Codec.R MdFun :=
   | "tag" => pure (fun x y => match x, y with
       | none, none => none
       | _, _ => some [("src", tagOf x y)])
+  -- two members that do NOT map (None, None) to "no metadata": fed to the real code only where the
+  -- model takes the general path at every step (theorem `merge_md` has no hypothesis on f there)
+  | "tag_always" => pure (fun x y => some [("src", tagOf x y)])
+  | "count_described" => pure (fun x y =>
+      some [("described_by", toString ((if x.isSome then 1 else 0) + (if y.isSome then 1 else 0) : Nat))])
   | s => .error s!"unknown metadata function {s}"
 
 /-! ### JSON glue -/
